@@ -35,3 +35,54 @@ def fstring_error_node_v39(replay):
     """F10: grammar >= 3.9 and the unreported error node is inside / contains an f-string and its own first line carries the issue"""
     sig = replay.get('signature') or replay.get('observed') or ''
     return 'fstring=True v>=3.9=True ownline=True' in sig
+
+
+def backslash_only_line(replay):
+    """F13: the input has a physical line that consists of white space and a backslash continuation only,
+    and removing those lines' backslash-newline makes the failure go away"""
+    text = _text(replay)
+    pat = r'(?m)^([ \t\f]*)\\\r?\n[ \t\f]*'
+    if not re.search(pat, text):
+        return False
+    fixed = re.sub(pat, lambda m: m.group(1), text)
+    mod = importlib.import_module('harness.props.' + replay['property'])
+    if hasattr(mod, 'recheck'):
+        return mod.recheck(replay, fixed) is None
+    return True
+
+
+def needs_pep701(replay):
+    """F12: grammar >= 3.12 and the program is not accepted by CPython 3.11 (it needs PEP 701 f-string syntax)"""
+    v = replay.get('version') or ''
+    try:
+        if tuple(map(int, v.split('.'))) < (3, 12):
+            return False
+    except ValueError:
+        return False
+    if 'accepted_by_3_11' in replay:
+        return replay['accepted_by_3_11'] is False
+    return False
+
+
+def formfeed_at_line_start(replay):
+    """F14: a form feed in the leading white space of a line, and removing those form feeds makes the failure go away"""
+    text = _text(replay)
+    pat = r'(?m)^([ \t]*)\f+'
+    if not re.search(pat, text):
+        return False
+    fixed = re.sub(pat, lambda m: m.group(1), text)
+    mod = importlib.import_module('harness.props.' + replay['property'])
+    if hasattr(mod, 'recheck'):
+        return mod.recheck(replay, fixed) is None
+    return True
+
+
+def global_after_import_path_name(replay):
+    """F15: the reported name occurs in the module path of an import statement of the program"""
+    sig = replay.get('signature', '')
+    m = re.search(r"name '(\w+)' is used prior", sig)
+    if not m:
+        return False
+    nm = m.group(1)
+    text = _text(replay)
+    return bool(re.search(r'(?m)^\s*(from\s+[.\w]*\b%s\b[.\w]*\s+import|import\s+[^\n]*\b\w+\.%s\b|import\s+[^\n]*\b%s\.\w)' % (nm, nm, nm), text))
